@@ -298,6 +298,11 @@ fn mutants(text: &str, rng: &mut Rng, frag: &mut Frag) -> Vec<(String, &'static 
                 out.push((format!("{}{}{}", &text[..*s], d, &text[*e..]), "number-inflate"));
                 frag.count("numeric_positions_inflated");
             }
+            // the boundaries of the integer types, with and without a sign in front
+            for d in ["9223372036854775807", "9223372036854775808", "-9223372036854775808", "-9223372036854775809", "18446744073709551615", "18446744073709551616", "2147483648", "-2147483649", "32768", "-32769", "-0", "+1"] {
+                out.push((format!("{}{}{}", &text[..*s], d, &text[*e..]), "number-boundary"));
+                frag.count("numeric_positions_boundary");
+            }
         }
     }
     // unterminated comment / quotes at random positions
@@ -462,7 +467,7 @@ impl Check for C16 {
             r.frag.violation(&format!("c16|death|{}|{}", d.class(), kind), &format!("worker died ({}) while parsing: {}", d.class(), d.label), death_json(d));
         }
         r.assume("nesting deeper than 64 levels is outside the statement's stack clause: a stack overflow there is counted, not judged");
-        for k in ["delete", "duplicate", "replace", "swap", "number-inflate", "unterminated", "random-utf8"] {
+        for k in ["delete", "duplicate", "replace", "swap", "number-inflate", "number-boundary", "unterminated", "random-utf8"] {
             r.floor(&format!("op.{}", k), 1000);
         }
         r.floor("numeric_positions_inflated", 1000);
